@@ -12,6 +12,19 @@ impl LazyUpdate {
     #[verifier::external_body]
     pub fn clone(&self) -> (r: LazyUpdate) { unimplemented!() }
 }
+// A queued action (`Box<dyn LazyUpdateInternal>`: an opaque closure). `aid` names it; running it appends its name to the world's
+// execution log and may do ANYTHING else to the world, including queueing further actions (behind the ones already waiting).
+#[verifier::external_body]
+pub struct LazyAction { x: u8 }
+impl LazyAction {
+    pub uninterp spec fn aid(&self) -> int;
+    #[verifier::external_body]
+    pub fn update(self, world: &mut World)
+        ensures
+            final(world).lazy_log() == old(world).lazy_log().push(self.aid()),
+            old(world).lazy_queue().is_prefix_of(final(world).lazy_queue()),
+    { unimplemented!() }
+}
 
 #[verifier::external_body]
 pub struct World { x: u8 }
@@ -23,6 +36,20 @@ impl World {
     pub uninterp spec fn has_storage(&self, s: StorageId) -> bool;
     pub uninterp spec fn listed(&self, s: StorageId) -> bool;
     pub uninterp spec fn smask(&self, s: StorageId) -> Set<u32>;
+    // the lazy-update resource's queue (crossbeam SegQueue: FIFO) and a ghost log of the actions run so far. The queue is
+    // reached through an Arc that the world's LazyUpdate resource and every clone of it share; N10 rewrites
+    // `self.queue.0.pop()` inside LazyUpdate::maintain(&self, world) to `world.lazy_pop()` — ASSUMED aliasing: the LazyUpdate
+    // being drained is (a clone of) the world's own, which is what World::maintain passes.
+    pub uninterp spec fn lazy_queue(&self) -> Seq<int>;
+    pub uninterp spec fn lazy_log(&self) -> Seq<int>;
+    pub open spec fn same_lazy(&self, o: &World) -> bool { self.lazy_queue() == o.lazy_queue() && self.lazy_log() == o.lazy_log() }
+    #[verifier::external_body]
+    pub fn lazy_pop(&mut self) -> (r: Option<LazyAction>)
+        ensures
+            final(self).ents() == old(self).ents(), final(self).same_storages(old(self)), final(self).lazy_log() == old(self).lazy_log(),
+            old(self).lazy_queue().len() == 0 ==> r is None && final(self).lazy_queue() == old(self).lazy_queue(),
+            old(self).lazy_queue().len() > 0 ==> r is Some && r->0.aid() == old(self).lazy_queue()[0] && final(self).lazy_queue() == old(self).lazy_queue().drop_first(),
+    { unimplemented!() }
 
     // nothing but the entities resource differs
     pub open spec fn same_storages(&self, o: &World) -> bool {
@@ -32,7 +59,7 @@ impl World {
 
     #[verifier::external_body]
     pub fn entities_mut(&mut self) -> (r: &mut EntitiesRes)
-        ensures *r == old(self).ents(), final(self).ents() == *final(r), final(self).same_storages(old(self)),
+        ensures *r == old(self).ents(), final(self).ents() == *final(r), final(self).same_storages(old(self)), final(self).same_lazy(old(self)),
     { unimplemented!() }
     #[verifier::external_body]
     pub fn entities(&self) -> (r: &EntitiesRes)
@@ -41,7 +68,7 @@ impl World {
     // generic resource access used for LazyUpdate only; the result is unconstrained
     #[verifier::external_body]
     pub fn write_resource<R>(&mut self) -> (r: &mut R)
-        ensures final(self).ents() == old(self).ents(), final(self).same_storages(old(self)),
+        ensures final(self).ents() == old(self).ents(), final(self).same_storages(old(self)), final(self).same_lazy(old(self)),
     { unimplemented!() }
 
     // The MetaTable<dyn AnyStorage> as an indexed list: ASSUMED (shred) — `MetaTable::iter_mut(world)` yields every registered
@@ -64,17 +91,11 @@ impl World {
     pub fn listed_drop(&mut self, k: usize, entities: &[Entity])
         requires k < old(self).listed_seq().len(),
         ensures
-            final(self).ents() == old(self).ents(), final(self).listed_seq() == old(self).listed_seq(),
+            final(self).ents() == old(self).ents(), final(self).listed_seq() == old(self).listed_seq(), final(self).same_lazy(old(self)),
             forall|s: StorageId| #![trigger final(self).smask(s)] #![trigger final(self).listed(s)] #![trigger final(self).has_storage(s)]
                 final(self).has_storage(s) == old(self).has_storage(s) && final(self).listed(s) == old(self).listed(s)
                 && final(self).smask(s) == (if s == old(self).listed_seq()[k as int] { old(self).smask(s) - ids(entities@).to_set() } else { old(self).smask(s) }),
     { unimplemented!() }
-}
-
-impl LazyUpdate {
-    // runs arbitrary queued closures: the world afterwards is unconstrained (C09 is not claimed)
-    #[verifier::external_body]
-    pub fn maintain(&self, world: &mut World) { unimplemented!() }
 }
 
 // TRUSTED COMPOSITION (used only by World::delete_all): `(&entities).join().collect::<Vec<_>>()` yields, in ascending index
